@@ -370,7 +370,7 @@ Definition parse_named (name : bytes) (fr : list frame) : option xcmd :=
       else if beq name (bs "EXISTS") then parse_ks XExists fr
       else if beq name (bs "EXPIRE") then
         match fr with
-        | [_; k; a] => match x_bytes k, x_int parse_u64 a with Some kb, Some n => Some (XExpire kb n) | _, _ => None end
+        | [_; k; a] => match x_bytes k, x_int parse_i64 a with Some kb, Some n => Some (XExpire kb n) | _, _ => None end
         | _ => None
         end
       else if beq name (bs "PEXPIRE") then
@@ -517,8 +517,8 @@ Definition execute (now : Z) (d : db) (c : xcmd) (oracle : option frame) : frame
   | XIncrBy k n => reply_incr (eng_incr_by d k n)
   | XDecr k => reply_incr (eng_incr_by d k (-1))
   | XDecrBy k n =>
-      (* -(decrement): overflow panic for i64::MIN in the checked profile *)
-      if n =? i64_min then (PANIC, d) else reply_incr (eng_incr_by d k (- n))
+      (* decrement.checked_neg() (after the repair 64d6383) *)
+      if n =? i64_min then (r_err, d) else reply_incr (eng_incr_by d k (- n))
   | XSetNx k v =>
       match eng_set_nx now d k v None with
       | Some (ok, d') => (r_int (if ok then 1 else 0), d')
@@ -536,7 +536,10 @@ Definition execute (now : Z) (d : db) (c : xcmd) (oracle : option frame) : frame
   | XDel ks => match x_del_loop d ks 0 with (n, d') => (r_int n, d') end
   | XExists ks => (r_int (x_exists_count now d ks 0), d)
   | XExpire k secs =>
-      if ttl_ok (secs * 1000) then
+      (* after the repair e21bda2: a count <= 0 deletes the key *)
+      if secs <=? 0 then
+        match eng_delete d k with (b, d') => (r_int (if b then 1 else 0), d') end
+      else if ttl_ok (secs * 1000) then
         match eng_expire now d k (secs * 1000) with (b, d') => (r_int (if b then 1 else 0), d') end
       else (r_err, d)
   | XPExpire k ms =>
@@ -544,9 +547,9 @@ Definition execute (now : Z) (d : db) (c : xcmd) (oracle : option frame) : frame
         match eng_expire now d k ms with (b, d') => (r_int (if b then 1 else 0), d') end
       else (r_err, d)
   | XTtl k =>
-      (* secs = as_secs(); "if secs == 0 && subsec_millis() > 0 { 1 } else { secs }" *)
+      (* after the repair e21bda2: -2 once expired, otherwise rounded up *)
       match eng_ttl now d k with
-      | Some rem => (r_int (if (rem / 1000 =? 0) && (0 <? rem mod 1000) then 1 else rem / 1000), d)
+      | Some rem => (r_int (if rem =? 0 then -2 else (rem + 999) / 1000), d)
       | None => (r_int (if eng_exists now d k then -1 else -2), d)
       end
   | XPttl k =>
@@ -559,8 +562,13 @@ Definition execute (now : Z) (d : db) (c : xcmd) (oracle : option frame) : frame
   | XRename o n =>
       match eng_rename d o n with (true, d') => (r_ok, d') | (false, d') => (r_err, d') end
   | XRenameNx o n =>
-      (* delegates to commands::strings::handle_rename: a plain RENAME *)
-      h_rename d (frames_of (bs "RENAMENX") [o; n])
+      (* after the repair e21bda2 *)
+      if negb (eng_exists now d o) then (r_err, d)
+      else if eng_exists now d n then (r_int 0, d)
+      else match eng_rename d o n with
+           | (true, d') => (r_int 1, d')
+           | (false, d') => (r_err, d')
+           end
   | XRandomKey =>
       match d_data d with
       | [] => (r_nil, d)
@@ -572,8 +580,8 @@ Definition execute (now : Z) (d : db) (c : xcmd) (oracle : option frame) : frame
   | XPing None => (r_bulk (bs "PONG"), d)                      (* from_string: a bulk string *)
   | XPing (Some m) => (r_bulk m, d)
   | XEcho m => (r_bulk m, d)
-  (* execute_database: the database is conn_context.db_index, absent on the Lua path, i.e. 0;
-     [d] stands for that database here (see Model/Lua.v exec_database_db) *)
+  (* execute_database(db, ..): the script's database (after the repair e39f807); FLUSHALL flushes
+     every database, of which this model sees the script's only (not generated inside scripts) *)
   | XFlushDb => (r_ok, empty_db)
   | XFlushAll => (r_ok, empty_db)
   | XDbSize => (r_int (len (d_data d)), d)
